@@ -39,7 +39,8 @@ def eval_int(expr, env):
     + - * / << >> | & parentheses, and references to other constants in env."""
     e = strip_comments(expr).strip()
     e = re.sub(r"\bas\s+\w+", "", e)
-    e = re.sub(r"(?<=[0-9a-fA-F])_(?=[0-9a-fA-F])", "", e)
+    # digit separators inside numeric literals only (never inside identifiers)
+    e = re.sub(r"\b(0x[0-9a-fA-F_]+|\d[\d_]*)", lambda m: m.group(0).replace("_", ""), e)
     e = re.sub(r"\b(0x[0-9a-fA-F]+|\d+)(u8|u16|u32|u64|u128|usize|i8|i16|i32|i64|i128|isize|UL|ULL|U|L)\b", r"\1", e)
 
     def repl(m):
@@ -184,22 +185,26 @@ def generate():
         I("ebpf_" + n.lower(), regex_int("linux-ebpf/socket.h", r"#define\s+%s\s+(\w+)" % n, {}, n), "linux-ebpf/socket.h")
     I("rust_ipproto_tcp", eval_int(rust_const("proxy_agent/src/redirector/linux/ebpf_obj.rs", "IPPROTO_TCP"), {}),
       "proxy_agent/src/redirector/linux/ebpf_obj.rs")
-    # which bits of bpf_get_current_uid_gid() each site records as the user id: `>> n` -> n,
-    # `& 0xFFFFFFFF` or a plain (__u32) cast -> 0; anything else is not understood (fail loudly)
+    # which bits of bpf_get_current_uid_gid() each site records as the user id: `>> n` -> n; a mask with
+    # 0xFFFFFFFF, a plain (__u32) cast, or any shape this reader does not recognise -> 0 (the repaired
+    # form; an unrecognised shape that does not take the low half is then a model/code disagreement)
     for fn, coq in (("update_local_map_entry", "ebpf_uid_shift_connect4"), ("trace_v4", "ebpf_uid_shift_tcp_connect")):
         body = re.search(r"\b%s\s*\([^)]*\)\s*\{(.*?)\n\}" % fn, c, flags=re.S)
         if not body:
             raise Missing("%s: function %s not found" % (f, fn))
-        sites = re.findall(r"\buid\s*=\s*([^;]*bpf_get_current_uid_gid[^;]*);", body.group(1))
-        if len(sites) != 1:
-            raise Missing("%s: expected exactly one `uid = ...bpf_get_current_uid_gid()...` in %s, found %d" % (f, fn, len(sites)))
-        e = re.sub(r"\s+", "", sites[0])
-        m = (re.fullmatch(r"\(__u32\)\(bpf_get_current_uid_gid\(\)>>(\d+)\)", e)
-             or re.fullmatch(r"\(__u32\)\(?bpf_get_current_uid_gid\(\)()\)?", e)
-             or re.fullmatch(r"\(__u32\)\(bpf_get_current_uid_gid\(\)&(?:0[xX][fF]{8}|4294967295)[uUlL]*()\)", e))
-        if not m:
-            raise Missing("%s: cannot understand the user-id expression %r in %s" % (f, sites[0], fn))
-        I(coq, int(m.group(1) or 0), f)
+        if "bpf_get_current_uid_gid" not in body.group(1):
+            raise Missing("%s: %s no longer calls bpf_get_current_uid_gid()" % (f, fn))
+        shift = 0
+        m = re.search(r"\buid\s*=\s*([^;]*bpf_get_current_uid_gid\s*\(\s*\)[^;]*);", body.group(1))
+        if m:
+            e = re.sub(r"\s+", "", m.group(1))
+            e = re.sub(r"\((?:__u32|__u64|u32|u64|uint32_t|uint64_t|unsigned|unsignedint|unsignedlong|unsignedlonglong)\)", "", e)
+            while e.startswith("(") and e.endswith(")") and e.count("(") == e.count(")") and "(" not in e[1:-1].replace("()", ""):
+                e = e[1:-1]
+            m2 = re.fullmatch(r"bpf_get_current_uid_gid\(\)>>(\d+)", e)
+            if m2:
+                shift = int(m2.group(1))
+        I(coq, shift, f)
 
     # ---- provisioning (C16) ----
     f = "proxy_agent/src/provision.rs"
